@@ -945,4 +945,77 @@ def rule_position_kind(P):
     return R
 
 
-RULES = [rule_next_level, rule_terminal_type, rule_index_kind, rule_fold_zeros, rule_card_skipped, rule_mark_once, rule_array_extent, rule_position_kind]
+def rule_operand_unpack(P):
+    """level-synchronised recursion unpacks each operand either as itself (its node sits at the level being built) or as the expansion of the levels
+    it skips (redundant, or — identity-reduced forests, primed level — identity).  Which of the three is used for operand H of forest F is decided by
+    H's own level and F's own reduction rule: the test that selects initFromNode(H) compares the level obtained from F->getNodeLevel(H) of that same H,
+    and the test that selects initIdentity asks F, the forest the unpacked node was made for"""
+    R = RuleResult("level.operand-unpack", "for every unpacked node U = New(F, …) initialised from handle H by initFromNode / initRedundant / initIdentity: the governing level test compares a level defined as getNodeLevel(H) of the same H in the same F, and the identity arm is governed by F->isIdentityReduced() of the same F")
+    n = 0
+    seen = set()
+    for f in sorted(P.fns.values(), key=lambda f: (f["file"], f["line"], f["inst"])):
+        if not f.get("cfg") or not f["file"].startswith("operations/") or (f["file"], f["line"]) in seen:
+            continue
+        evs = [e for b in f["cfg"]["blocks"] for e in b["ev"]]
+        if not any(e["k"] == "call" and e["q"] == M + "unpacked_node::initFromNode" for e in evs):
+            continue
+        seen.add((f["file"], f["line"]))
+        g = Graph(f)
+        made = {}    # U -> forest text
+        lvl = {}     # level local -> (forest, handle)
+        for k in g.nodes:
+            if k.kind == "ldef" and k.ev.get("rhs"):
+                m = re.fullmatch(r"unpacked_node::New\((\w+),.*\)", _nz(k.ev["rhs"]))
+                if m:
+                    made[k.ev["var"]] = m.group(1)
+                m = re.fullmatch(r"(?:ABS\()?(\w+)->getNodeLevel\((\w+)\)\)?", _nz(k.ev["rhs"]))
+                if m:
+                    lvl[k.ev["var"]] = (m.group(1), m.group(2))
+
+        def governing(k):
+            out = []
+            for c in g.nodes:
+                if c.kind != "branch" or not c.cond or len(c.succ) != 2:
+                    continue
+                arms = [i for s_, i in c.succ if k.id in g.reach([s_], avoid=lambda x, c=c: x.id == c.id)]
+                if len(arms) == 1:
+                    out.append((_nz(c.cond["text"]), arms[0]))
+            return out
+        for k in g.nodes:
+            if k.kind != "call" or not k.ev["q"].startswith(M + "unpacked_node::") or k.ev["q"].split("::")[-1] not in ("initFromNode", "initRedundant", "initIdentity"):
+                continue
+            U = _nz(k.ev.get("recv") or "")
+            if U not in made:
+                continue
+            F = made[U]
+            nm = k.ev["q"].split("::")[-1]
+            H = _nz(k.ev["args"][-1])
+            if not re.fullmatch(r"\w+", H):
+                continue
+            conds = governing(k)
+            tests = [(t, a) for t, a in conds if re.fullmatch(r"(\w+)(!=|==)(\w+)", t) and any(x in lvl for x in re.fullmatch(r"(\w+)(!=|==)(\w+)", t).groups()[::2])]
+            if not tests:
+                continue
+            n += 1
+            R.functions.add(f["inst"])
+            R.paths += 1
+            iid = "%s: %s->%s(%s)" % (base_name(f["q"]).replace(M, "")[:50], U, nm, H)
+            problems = []
+            lv = [x for t, a in tests for x in re.fullmatch(r"(\w+)(!=|==)(\w+)", t).groups()[::2] if x in lvl]
+            if not any(lvl[x] == (F, H) for x in lv):
+                problems.append("the level test uses %s, not the level of `%s` in %s" % (sorted({"%s = %s->getNodeLevel(%s)" % (x, lvl[x][0], lvl[x][1]) for x in lv}), H, F))
+            if nm == "initIdentity":
+                ids = [t for t, a in conds if "isIdentityReduced()" in t]
+                if ids and not any(re.search(r"(?<!\w)%s->isIdentityReduced\(\)" % re.escape(F), t) for t in ids):
+                    problems.append("the identity expansion is selected by %s, not by %s->isIdentityReduced()" % (ids, F))
+            if not problems:
+                R.ok(iid, where(f, k.line))
+            else:
+                R.fail(iid, where(f, k.line), Finding(R.rule, f["file"], base_name(f["q"]), "%s->%s(%s)" % (U, nm, H), "; ".join(problems) + ": the operand is expanded (or not) according to the other operand's shape", k.line, inst=None))
+    if n < 30:
+        raise AnalysisBroken("level.operand-unpack: only %d governed operand initialisations found, expected ≥30" % n)
+    R.require_floor(30, "operand initialisations")
+    return R
+
+
+RULES = [rule_next_level, rule_terminal_type, rule_index_kind, rule_fold_zeros, rule_card_skipped, rule_mark_once, rule_array_extent, rule_position_kind, rule_operand_unpack]
